@@ -227,11 +227,15 @@ def runCase (c : Case) : String :=
     match accept Place.init evl 0 with
     | .error (i, raw) => s!"case {c.id} reject {i} [{raw}] ; {monS}"
     | .ok s =>
-      let ids := List.range (ls.length + 2)
-      let badT := ids.filter (fun o => let T := s.task o; T.live && (T.loc.isSome || T.holder.isSome || T.inPhase))
+      -- objects / entries / operations that occur in the events (deduplicated)
+      let objs := (evl.foldl (fun acc (p : Ev × String) => match p.1 with
+        | .convert _ _ o .. => o :: acc | .createNow _ o .. => o :: acc | .bindOnly _ o .. => o :: acc | _ => acc) []).eraseDups
+      let ents := evl.foldl (fun acc (p : Ev × String) => match p.1 with | .create _ e .. => e :: acc | _ => acc) []
+      let ops := evl.foldl (fun acc (p : Ev × String) => match p.1 with | .start _ k _ => k :: acc | _ => acc) []
+      let badT := objs.filter (fun o => let T := s.task o; T.live && (T.loc.isSome || T.holder.isSome || T.inPhase))
       let nEv := evs.size
-      let badE := (List.range (2 * nEv + 2)).filter (fun e => (s.ent e).live)
-      let badOp := (List.range (2 * nEv + 2)).filter (fun k => (s.op k).started && !(s.op k).ran)
+      let badE := ents.filter (fun e => (s.ent e).live)
+      let badOp := ops.filter (fun k => (s.op k).started && !(s.op k).ran)
       let fin := if badT.isEmpty && badE.isEmpty && badOp.isEmpty then "final ok"
         else s!"final MISMATCH: tasks not at rest {badT.take 4}, staged entries left {badE.take 4}, operations never run {badOp.take 4}"
       let seqS := if c.get "mode" == "seq" then
